@@ -1326,6 +1326,7 @@ func (c *Client) readSlices() (message, topic []byte, err error) {
 
 		// no errors guaranteed
 		c.bufr.Discard(len(c.peek))
+		c.peek = nil // resets progress tracking of peekPacket
 	}
 }
 
